@@ -65,6 +65,7 @@ func refLookup(keys, vals []string, mainKey, ctr string) (bool, string) {
 //verif:property C20
 //verif:instances 2
 //verif:quick-instances 0
+//verif:thorough-instances 0
 //verif:cut sigs.k8s.io/yaml.Unmarshal => verifYAML
 //verif:expect-cover selected none error
 func H_C20_injector() {
